@@ -449,7 +449,114 @@ def check_list(ctx, out, rule="C11.list"):
     out.inst(rule, n, 1, cands, note="one entry appended per block on every path; the appended-to Vec is returned; no keyed/lossy container")
 
 
+def check_paths(ctx, out, rule="C11.paths"):
+    """Once the blocks are parsed, every way `main` can end in Ok passes through one of the two jobs:
+    writing the list document, or running the validators. (An early `return Ok(())` in between — for
+    an empty selection, say — leaves `list` printing nothing instead of `{}`.)"""
+    main = ctx.main_view()
+    if main is None:
+        out.inst(rule, 0, 1)
+        return
+    cfg = cfg_of(main)
+    parse = [(bi, t) for bi, t in main.calls() if callee_matches(t, r"blocks::parse_blocks$")]
+    work = {bi for bi, t in main.calls() if callee_matches(t, r"serde_json::to_writer(_pretty)?$|serde_json::to_string(_pretty)?$|validators::run$")}
+    if len(parse) != 1 or not work:
+        out.viol(rule, "%s|anchor" % rule, ctx.where(main), "main: expected one parse_blocks call and the list writer / validators::run calls (found %d / %d)" % (len(parse), len(work)))
+        out.inst(rule, 0, 1)
+        return
+    pbi, pt = parse[0]
+    start = pt.get("target")
+    if start is None:
+        start = cfg.succ[pbi][0]
+    r = cfg.reach(start, avoid=work)
+    n = 0
+    bad = None
+    for bi, j, s in main.assigns():
+        if bi not in r:
+            continue
+        rv = s["rv"]
+        if s["lhs"]["l"] == 0 and not s["lhs"]["p"] and rv["k"] == "agg" and rv.get("agg") == "adt" and rv.get("path", "").endswith("result::Result") and rv.get("variant") in ("Ok", 0):
+            bad = s
+    if bad is not None:
+        out.viol(rule, "%s|early-ok" % rule, ctx.where(main, bad["span"]),
+                 "main can return Ok after parsing the blocks without either printing the list or running the validators: on that path `list` prints nothing (not even `{}`) and a validation run reports nothing")
+    else:
+        n += 1
+    out.inst(rule, n, 1, note="Ok returns reachable from parse_blocks without passing the list writer / validators::run: must be 0")
+
+
+def check_items(ctx, out, rule="C11.items"):
+    """The report holds one entry per violation: in the report function the loop over a file's
+    `Violation`s appends exactly one `serde_json::Value` per iteration to a list (every path that
+    stays in the loop), and nothing keyed, de-duplicating or truncating stands between the
+    violations and the written document."""
+    from rules.shared import TRUNCATING
+    LOSSY = r"::(dedup|dedup_by|dedup_by_key|retain|retain_mut|truncate|pop|remove|swap_remove|drain|clear|split_off)$"
+    rb = None
+    for b in ctx.reachable_bodies():
+        if b.id.startswith("bwbin::") and any(callee_matches(t, r"^std::process::(exit|abort)$") for _, t in b.calls()):
+            rb = b
+    if rb is None:
+        out.inst(rule, 0, 1, note="report function not found")
+        return
+    v = ctx.inl(rb, skip=ctx.domain_api, tag="domain", sugar=True)
+    cfg = cfg_of(v)
+    E = ctx.expr(v)
+    n = 0
+    loops = []
+    for bi, t in v.calls():
+        if not callee_matches(t, r"Iterator>?::next$") or bi not in cfg.reachable:
+            continue
+        pl = t["args"][0].get("m") or t["args"][0].get("c")
+        ty = v.local_ty(pl["l"]) if pl else ""
+        if re.search(r"(IntoIter|Iter|Drain)<[^>]*validators::Violation\b", ty) and "PathBuf" not in ty:
+            h = cfg.innermost_loop(bi)
+            if h is not None:
+                loops.append((h, cfg.loops()[h], bi))
+    def is_val(c):
+        a = (c.get("arg_tys") or [""])[0]
+        return "serde_json::Value" in a or "SimpleDiagnostic" in a
+    for bi, t in v.calls():
+        if callee_matches(t, LOSSY) and is_val(t) and "HashMap" not in (t.get("arg_tys") or [""])[0]:
+            out.viol(rule, "%s|lossy|%s" % (rule, callee_name(t).split("::")[-1]), ctx.where(v, t["span"]),
+                     "the list of diagnostics is passed through `%s`: violations can be removed from the report" % callee_name(t).split("::")[-1])
+    if not loops:
+        out.viol(rule, "%s|no-loop" % rule, ctx.where(rb), "no loop over the `Violation`s of a file found in the report function (normalised view): the one-entry-per-violation rule cannot be established")
+        out.inst(rule, 0, 1)
+        return
+    for h, blocks, nb in loops:
+        t = v.blocks[nb]["term"]
+        e = E.operand(t["args"][0])
+        bad = [c[1].split("::")[-1] for c in walk(e) if c[0] == "call" and (TRUNCATING.search(c[1]) or re.search(r"Iterator>?::(filter|filter_map)$", c[1]))]
+        if bad:
+            out.viol(rule, "%s|truncated" % rule, ctx.where(v, t["span"]), "the report iterates a file's violations through %s: violations can be left out of the report" % bad)
+            continue
+        region = util.iter_region(v, nb) | set(blocks)
+        sw = cfg.succ[nb][0]
+        some = util.switch_arms(v, sw).get(1)
+        pushes = [(bi, c) for bi, c in v.calls() if bi in region and callee_matches(c, r"Vec::<T, A>::push$|VecDeque::<T, A>::push_back$") and is_val(c)]
+        keyed = [(bi, c) for bi, c in v.calls() if bi in region and callee_matches(c, r"(BTreeMap|HashMap|IndexMap|BTreeSet|HashSet)::<.*>::(insert|entry)$")
+                 and "serde_json::Map" not in callee_name(c) and cfg.innermost_loop(bi) == h]
+        if keyed:
+            kt = (keyed[0][1].get("arg_tys") or ["?"])[0]
+            out.viol(rule, "%s|keyed" % rule, ctx.where(v, keyed[0][1]["span"]),
+                     "each violation's entry is inserted into `%s` instead of being appended to a list: two violations with the same key (e.g. the same start position — several rules of one block all report at its start tag) collapse into one entry" % kt[:120])
+            continue
+        if len(pushes) != 1:
+            out.viol(rule, "%s|push-count" % rule, ctx.where(v, t["span"]), "expected exactly one append of a diagnostic value per violation, found %d" % len(pushes))
+            continue
+        pbi, pc = pushes[0]
+        r = cfg.reach(some, avoid=(set(range(cfg.n)) - set(region)) | {pbi}) if some is not None else set()
+        if some is not None and some != pbi and (h in r or any(h in cfg.succ[x] for x in r)):
+            out.viol(rule, "%s|skipped" % rule, ctx.where(v, pc["span"]), "there is a path through the per-violation iteration that does not append an entry: a violation can be missing from the report")
+            continue
+        n += 1
+    out.inst(rule, n, 1, note="loops over a file's violations in the report function: one appended entry per iteration, no keyed / lossy container")
+
+
 def run(ctx, out, tier):
+    check_paths(ctx, out)
+    check_items(ctx, out)
     check_exit(ctx, out)
     check_severity(ctx, out)
     check_all(ctx, out)
